@@ -52,7 +52,11 @@ def cfg(compiler, opt, std='c++17', abacus=False, **kw):
 
 
 # clang-O2 mirrors a CMake Release build (-DNDEBUG): code hidden in assert() is a configuration dimension too
-QUICK_CFGS = [cfg('g++', '-O0'), cfg('g++', '-O2'), cfg('clang++', '-O2', extra=['-DNDEBUG'], tag='clang-O2-c++17-ndebug')]
+# the clang configuration mirrors a release build of a project that uses the compiler defaults: GNU dialect (no __STRICT_ANSI__),
+# -DNDEBUG, and -funsigned-char (the default on ARM/PowerPC Linux): code hidden behind those switches is a configuration dimension too
+FORCE_CE = ['-include', os.path.join(HARNESS, 'force_ce.h')]   # harness/force_ce.h: is_constant_evaluated() answers true at run time
+QUICK_CFGS = [cfg('g++', '-O0'), cfg('g++', '-O2'), cfg('clang++', '-O2', 'gnu++17', extra=['-DNDEBUG', '-funsigned-char'], tag='clang-O2-gnu++17-ndebug-uchar'),
+              cfg('g++', '-O2', 'c++20', extra=FORCE_CE, tag='gcc-O2-c++20-ce')]
 ABACUS_QUICK = [cfg('g++', '-O2', abacus=True)]
 
 
@@ -67,6 +71,9 @@ def thorough_cfgs():
                     out.append(cfg(cc, o, std))
         out.append(cfg(cc, '-O2', 'c++2b'))
         out.append(cfg(cc, '-Os'))
+        out.append(cfg(cc, '-O2', 'gnu++17'))
+        out.append(cfg(cc, '-O1', 'c++20', extra=FORCE_CE, tag=f"{'gcc' if cc == 'g++' else 'clang'}-O1-c++20-ce"))
+        out.append(cfg(cc, '-O1', 'gnu++20', extra=['-funsigned-char'], tag=f"{'gcc' if cc == 'g++' else 'clang'}-O1-gnu++20-uchar"))
     return out
 
 
@@ -158,7 +165,7 @@ def build_object(c):
     d = os.path.join(CACHE, 'obj', tree_hash())
     os.makedirs(d, exist_ok=True)
     os.utime(d)
-    key = sha(file_hash([src]), compiler_version(c.compiler), ' '.join(c.flags()), c.kind)[:16]
+    key = sha(file_hash([src, os.path.join(HARNESS, 'force_ce.h')]), compiler_version(c.compiler), ' '.join(c.flags()), c.kind)[:16]
     out = os.path.join(d, f'{c.name}-{key}.so')
     if os.path.exists(out):
         return out
